@@ -59,6 +59,51 @@ M['K7-send-reuses-last-buffer']=lambda: sub('kcp.go','''		seg := kcp.newSegment(
 			}
 		}
 		copy(seg.data, buffer[:size])''')
+# ---- FEC decoder (component fecown + Props/C15Fec)
+M['F1-decoder-recycles-returned-buffers']=lambda: sub('fec.go','''				for k := range shards[:dec.dataShards] {
+					if !shardsflag[k] {
+						recovered = append(recovered, shards[k])
+					}
+				}
+			} else {''','''				for k := range shards[:dec.dataShards] {
+					if !shardsflag[k] {
+						recovered = append(recovered, shards[k])
+					}
+				}
+				for _, buf := range newBuffers {
+					defaultBufferPool.Put(buf)
+				}
+			} else {''')
+M['F2-retune-keeps-shardset']=lambda: sub('fec.go','				dec.shardSet = make(map[uint32]*shardHeap) // empty the shard set\n','')
+M['F3-discard-keeps-shard']=lambda: sub('fec.go','			delete(dec.shardSet, shardId)\n','')
+M['F4-recycle-before-reconstruct']=lambda: (sub('fec.go','''		// case 1: all data shards are present
+		if numDataShard == dec.dataShards {''','''		for _, pkt := range pkts {
+			defaultBufferPool.Put(pkt)
+		}
+		// case 1: all data shards are present
+		if numDataShard == dec.dataShards {'''), sub('fec.go','''		// recycle the packets
+		for _, pkt := range pkts {
+			defaultBufferPool.Put(pkt)
+		}
+	}
+''','''	}
+'''))
+M['F5-duplicate-data-stored-again']=lambda: sub('fec.go','''	if shard.Has(in.seqid()) {
+		return nil
+	}''','''	if shard.Has(in.seqid()) && in.flag() == typeParity {
+		return nil
+	}''')
+M['F6-failed-reconstruction-keeps-new-buffers']=lambda: sub('fec.go','''				for _, buf := range newBuffers {
+					defaultBufferPool.Put(buf)
+				}
+''','''				_ = newBuffers
+''')
+M['F7-full-group-not-recycled']=lambda: sub('fec.go','''		if numDataShard == dec.dataShards {
+			atomic.AddUint64(&DefaultSnmp.FECFullShardSet, 1)
+		} else {''','''		if numDataShard == dec.dataShards {
+			atomic.AddUint64(&DefaultSnmp.FECFullShardSet, 1)
+			pkts = nil
+		} else {''')
 names=sys.argv[1:] or list(M)
 res={}
 os.makedirs(TMP+'/ev',exist_ok=True)
@@ -84,14 +129,15 @@ for n in names:
     try:
         ev=json.load(open(TMP+'/ev/C15.json'))
         for c in ev['coverage'].get('correspondence',[]):
-            if c['component']=='kcpown':
+            if c['component'] in ('kcpown','fecown'):
                 mm=c.get('mismatch')
-                res[n]+=' || kcpown: ops %s mismatch %s'%(c['ops_compared'], ('line %d op %s impl [%s] model [%s]'%(mm['line'],mm['op'][:40],mm['impl'][:80],mm['model'][:80])) if mm else None)
-        r=json.load(open(VERIF+'/.work/C15/kcpown/result.json'))
-        kinds={}
-        for v in r['violations']: kinds[v['kind']]=kinds.get(v['kind'],0)+1
-        res[n]+=' || kcpown oracle violations: %s'%kinds
-        if r['violations']: res[n]+=' first: '+r['violations'][0]['detail'][:300]
+                res[n]+=' || %s: ops %s mismatch %s'%(c['component'],c['ops_compared'], ('line %d op %s impl [%s] model [%s]'%(mm['line'],mm['op'][:40],mm['impl'][:80],mm['model'][:80])) if mm else None)
+        for comp in ('kcpown','fecown'):
+            r=json.load(open(VERIF+'/.work/C15/'+comp+'/result.json'))
+            kinds={}
+            for v in (r['violations'] or []): kinds[v['kind']]=kinds.get(v['kind'],0)+1
+            res[n]+=' || %s oracle violations: %s'%(comp,kinds)
+            if r['violations']: res[n]+=' first: '+r['violations'][0]['detail'][:200]
     except Exception as e: res[n]+=' (no kcpown evidence: %s)'%e
     print(n,'=>',res[n],flush=True)
     open(TMP+'/'+n+'.log','w').write(out)
